@@ -344,6 +344,8 @@ func applyDocEdit(doc *JV, op Op) bool {
 				return true
 			}
 		}
+	case "extcode":
+		return applyExtCode(doc, op.I, op.J)
 	case "graft":
 		return applyGraft(doc, op.I, op.J)
 	case "paykeys":
@@ -491,7 +493,7 @@ func applyDocEdit(doc *JV, op Op) bool {
 	return false
 }
 
-var editKinds = []string{"qty", "price", "rmline", "dupline", "note", "rounding", "custname", "code", "breakdown", "linedisc", "linecharge", "docdisc", "advances", "codeweird", "addrweird", "taxidweird", "amountprec", "mixrates", "mixrates", "rmdefaulted", "sloppy", "sloppy", "sloppy", "inboxweird", "scenario", "scenario", "fx", "valuedate", "transplant", "transplant", "docfixed", "paykeys", "graft", "graft"}
+var editKinds = []string{"qty", "price", "rmline", "dupline", "note", "rounding", "custname", "code", "breakdown", "linedisc", "linecharge", "docdisc", "advances", "codeweird", "addrweird", "taxidweird", "amountprec", "mixrates", "mixrates", "rmdefaulted", "sloppy", "sloppy", "sloppy", "inboxweird", "scenario", "scenario", "fx", "valuedate", "transplant", "transplant", "docfixed", "paykeys", "graft", "graft", "extcode", "extcode"}
 
 func genEdit(r *rand.Rand, id int) Op {
 	k := Pick(r, editKinds)
@@ -523,6 +525,8 @@ func genEdit(r *rand.Rand, id int) Op {
 		op.S2 = Pick(r, []string{"type", "currency", "$regime", "type", "tax"})
 	case "sloppy":
 		op.I, op.J = int64(r.IntN(1<<16)), int64(r.IntN(7))
+	case "extcode":
+		op.I, op.J = int64(r.IntN(1<<12)), int64(r.IntN(1<<12))
 	case "graft":
 		op.I, op.J = int64(r.IntN(1<<12)), int64(r.IntN(1<<10))
 	case "paykeys":
